@@ -56,7 +56,7 @@ fn c_ws(mode: u64, chunk: u64, cut: u64, s: &[u8]) -> Vec<u64> {
 const MASK: [u8; 4] = [0x37, 0xfa, 0x21, 0x3d];
 fn mask_for(mode: u64) -> Option<[u8; 4]> {
     // what the honest remote of this role does: clients mask, servers do not
-    if mode == 2 {
+    if mode == 2 || mode == 3 {
         None
     } else {
         Some(MASK)
@@ -203,10 +203,76 @@ fn ws_systematic(out: &mut Vec<Vec<u64>>, thorough: bool) {
     for r in variants {
         out.push(c_ws(1, 4096, r.len() as u64, &with(&r)));
     }
+    ws_client_systematic(out, thorough);
+}
+
+pub const WS_RESPONSE: &[u8] = b"HTTP/1.1 101 Switching Protocols\r\nConnection: Upgrade\r\nUpgrade: websocket\r\nSec-WebSocket-Accept: @@@@@@@@@@@@@@@@@@@@@@@@@@@@\r\n\r\n";
+
+/// the dialer side: the remote's answer to the upgrade request, then its (unmasked) frames
+fn ws_client_systematic(out: &mut Vec<Vec<u64>>, thorough: bool) {
+    let frames = [ws_ser(&ws_bin(b"hello", None)), ws_ser(&ws_bin(b"world", None))].concat();
+    let resp = WS_RESPONSE.to_vec();
+    let with = |r: &[u8]| -> Vec<u8> { [r, &frames[..]].concat() };
+    for cut in [0usize, 1, 17, resp.len() - 1, resp.len(), resp.len() + 1, resp.len() + frames.len()] {
+        out.push(c_ws(3, 4096, cut as u64, &with(&resp)));
+    }
+    let step = if thorough { 1 } else { 5 };
+    for i in (0..resp.len()).step_by(step) {
+        out.push(c_ws(3, 4096, 0, &resp[..i]));
+    }
+    let lines: Vec<&[u8]> = resp.split(|b| *b == b'\n').collect();
+    for i in 0..lines.len().saturating_sub(2) {
+        let mut l = lines.clone();
+        l.remove(i);
+        out.push(c_ws(3, 4096, 0, &with(&l.join(&b'\n'))));
+        let mut l = lines.clone();
+        l.insert(i, lines[i]);
+        out.push(c_ws(3, 4096, 0, &with(&l.join(&b'\n'))));
+    }
+    let text = String::from_utf8_lossy(&resp).to_string();
+    let variants: Vec<Vec<u8>> = vec![
+        resp.iter().copied().filter(|b| *b != b'\r').collect(),
+        text.replace("101", "200").into_bytes(),
+        text.replace("101", "1010").into_bytes(),
+        text.replace("101", "").into_bytes(),
+        text.replace("HTTP/1.1", "HTTP/1.0").into_bytes(),
+        text.replace("HTTP/1.1", "HTTP/9.9").into_bytes(),
+        text.replace("@@@@@@@@@@@@@@@@@@@@@@@@@@@@", "AAAAAAAAAAAAAAAAAAAAAAAAAAAA").into_bytes(),
+        text.replace("@@@@@@@@@@@@@@@@@@@@@@@@@@@@", "").into_bytes(),
+        text.replace("Upgrade: websocket", "Upgrade: h2c").into_bytes(),
+        text.replace("Connection: Upgrade", "connection: upgrade").into_bytes(),
+        text.replace("Upgrade: websocket\r\n", "Upgrade: websocket\r\nSec-WebSocket-Protocol: x\r\nSec-WebSocket-Extensions: permessage-deflate\r\n").into_bytes(),
+        text.replace("Connection:", "Connection").into_bytes(),
+        text.replace("Connection: ", "Connection: \0").into_bytes(),
+        {
+            let mut r = b"HTTP/1.1 101 Switching Protocols\r\n".to_vec();
+            for i in 0..200 {
+                r.extend(format!("X-{i}: {i}\r\n").bytes());
+            }
+            r.extend(&resp[resp.iter().position(|b| *b == b'\n').unwrap() + 1..]);
+            r
+        },
+        {
+            let mut r = b"HTTP/1.1 101 ".to_vec();
+            r.extend(vec![b'S'; 20_000]);
+            r.extend(&resp[32..]);
+            r
+        },
+    ];
+    for r in variants {
+        out.push(c_ws(3, 4096, 0, &with(&r)));
+    }
+    // a server must not mask: masked frame after a good handshake; an oversized announcement
+    let bad = [resp.clone(), ws_ser(&ws_bin(b"ok", None)), ws_ser(&ws_bin(b"masked", Some(MASK)))].concat();
+    out.push(c_ws(3, 64, 0, &bad));
+    for v in ws_len_extremes() {
+        let f = WsFrame { fin: true, rsv: 0, op: 2, mask: None, lie: Some((v, 8)), payload: Vec::new() };
+        out.push(c_ws(3, 4096, 0, &[resp.clone(), ws_ser(&f), vec![1u8; 50]].concat()));
+    }
 }
 
 fn ws_random(rng: &mut Rng) -> Vec<u64> {
-    let mode = rng.pick(&[0u64, 0, 2, 1]);
+    let mode = rng.pick(&[0u64, 0, 2, 1, 3]);
     let good = mask_for(mode);
     let mut s = Vec::new();
     let mut big = false;
@@ -246,7 +312,11 @@ fn ws_random(rng: &mut Rng) -> Vec<u64> {
     }
     let s = if rng.chance(25) { mutate_bytes(rng, s) } else { s };
     let chunk = rng.pick(&[1u64, 2, 7, 4096, 65536]);
-    if mode == 1 {
+    if mode == 3 {
+        let resp = if rng.chance(30) { mutate_bytes(rng, WS_RESPONSE.to_vec()) } else { WS_RESPONSE.to_vec() };
+        let cut = if rng.chance(60) { 0 } else { rng.below(resp.len() as u64 + s.len() as u64 + 1) };
+        c_ws(3, chunk, cut, &[resp, s].concat())
+    } else if mode == 1 {
         let req = if rng.chance(25) { mutate_bytes(rng, WS_REQUEST.to_vec()) } else { WS_REQUEST.to_vec() };
         let cut = if rng.chance(85) { req.len() as u64 } else { rng.below(req.len() as u64 + s.len() as u64 + 1) };
         c_ws(1, chunk, cut, &[req, s].concat())
